@@ -76,6 +76,23 @@ type Sim struct {
 	GoChecks []string
 }
 
+// NewSimOn wraps an existing world (whose component types were registered in the configured order)
+// with fresh user-side bookkeeping: used for the twin comparison of a reset world with a new one.
+func NewSimOn(cfg Config, w *ecs.World) *Sim {
+	s := &Sim{Cfg: cfg, W: w, setters: map[int]mapSetter{}, mappers: map[string]batchMapper{}, exchanges: map[string]batchExchange{}}
+	for i, code := range cfg.Codes {
+		tp := typeOfCode(code)
+		id := ecs.TypeID(w, tp)
+		if int(id.Index()) != i {
+			panic(fmt.Sprintf("component %d got id %d", i, id.Index()))
+		}
+		s.IDs = append(s.IDs, id)
+		s.Types = append(s.Types, tp)
+	}
+	s.cbFilter = ecs.NewFilter0(w)
+	return s
+}
+
 // NewSim creates a world and registers the component types in the configured order.
 func NewSim(cfg Config) *Sim {
 	if cfg.Bits != ecs.VerifMaskBits {
